@@ -4,9 +4,11 @@ import (
 	"fmt"
 	"go/token"
 	"go/types"
+	"os"
 	"reflect"
 	"regexp"
 	"sort"
+	"strconv"
 	"strings"
 	"time"
 
@@ -237,6 +239,39 @@ func ruleK10All(r *Report, p *Program) {
 								}
 								if cr := intervalOf(pa, x, 0); !cr.Intersect(complement(IntervalSet{{'0', '9'}})).Empty() {
 									bad = "the character " + cut(x.String(), 40) + " enters the value without being restricted to '0'..'9' (accepts " + cr.Intersect(complement(IntervalSet{{'0', '9'}})).String() + ")"
+								}
+							}
+						})
+					}
+					// components read with Atoi/ParseInt from a piece cut out of the text by position: these accept a sign
+					// ("+1", "-0"), so every character of the piece must have been restricted to '0'..'9'
+					for _, comp := range []*Term{h, m} {
+						visitTerm(comp, map[*Term]bool{}, func(x *Term) {
+							if x.Op != "call" || (x.Name != "strconv.Atoi" && x.Name != "strconv.ParseInt") || len(x.Args) == 0 {
+								return
+							}
+							piece := x.Args[0]
+							if os.Getenv("UHLINT_DEBUG") == "K10s" {
+								fmt.Fprintf(os.Stderr, "K10s %s piece op=%s %s\n", x.Name, piece.Op, piece.String())
+							}
+							if piece.Op != "slice" || len(piece.Args) < 3 || piece.Args[2] == nil {
+								return
+							}
+							lo, ok1 := int64(0), true
+							if piece.Args[1] != nil {
+								lo, ok1 = piece.Args[1].Int64()
+							}
+							hi, ok2 := piece.Args[2].Int64()
+							if !ok1 || !ok2 || hi-lo > 8 {
+								return
+							}
+							for i := lo; i < hi; i++ {
+								ch := &Term{Op: "index", Args: []*Term{piece.Args[0], mkInt(i, types.Typ[types.Int])}, Typ: types.Typ[types.Uint8]}
+								if os.Getenv("UHLINT_DEBUG") == "K10s" {
+									fmt.Fprintf(os.Stderr, "K10s   ch %s in %s\n", ch.String(), intervalOf(pa, ch, 0).String())
+								}
+								if cr := intervalOf(pa, ch, 0); !cr.Intersect(complement(IntervalSet{{'0', '9'}})).Empty() {
+									bad = "the piece " + cut(piece.String(), 30) + " is read with " + x.Name + ", which accepts a sign, and its character " + fmt.Sprint(i) + " is not restricted to '0'..'9': texts such as \"+1:30\" are accepted"
 								}
 							}
 						})
@@ -724,6 +759,9 @@ func RuleJSON(r *Report, p *Program) {
 				ok = maxLen == int64(len(fmt.Sprint(bound)))
 			}
 			r.Check(ok, "J2", "types.PIN:json-width", p.Pos(uj.Pos()), d, "PIN width disagreement: "+d)
+			if bound > 0 {
+				rulePINDomain(r, p, uj, bound)
+			}
 		}
 	}
 	ruleTaskType(r, p)
@@ -784,7 +822,8 @@ func ruleCalendarDelegation(r *Report, p *Program) {
 						return false
 					}
 				}
-				return true
+				// a public constructor from an instant (DateFromTime(t) = Date(civil(t.Date()))) is part of the parser
+				return !publicHelper(f, fn, isCtor)
 			}
 			return false
 		})
@@ -796,6 +835,9 @@ func ruleCalendarDelegation(r *Report, p *Program) {
 		n := 0
 		for _, pa := range w.Walk(fn, args, nil) {
 			for _, e := range pa.Events {
+				if os.Getenv("UHLINT_DEBUG") == "J9" {
+					fmt.Fprintln(os.Stderr, "J9", calleeName(fn), pa.Outcome, e.Kind, e.Name, len(e.Args))
+				}
 				if e.Kind != "call" || len(e.Args) < 3 {
 					continue
 				}
@@ -826,6 +868,87 @@ func ruleCalendarDelegation(r *Report, p *Program) {
 			r.Check(bad == "", "J9", calleeName(fn), p.Pos(fn.Pos()), fmt.Sprintf("%d constructor calls", n), bad)
 		}
 	}
+}
+
+// J10: whatever form of JSON the PIN reader accepts, what it stores is a PIN of the domain. On every path that
+// reports success the stored value is a constant in 0..bound, the unsigned base-10 reading of a text the path has
+// bounded to the width of bound (by a pattern or a length test), or an integer the path condition keeps in 0..bound.
+func rulePINDomain(r *Report, p *Program, uj *ssa.Function, bound int64) {
+	r.Rule("J10", "every value the PIN reader stores on a successful path lies in 0..999999 (whatever JSON form it was read from)", 1)
+	width := int64(len(fmt.Sprint(bound)))
+	bad := ""
+	n := 0
+	for _, pa := range walkSimple(p, uj, []string{"p", "bytes"}, typesHelpers(p)) {
+		if pa.Outcome != "return" || len(pa.Results) != 1 || errNilness(pa, pa.Results[0]) != 1 {
+			continue
+		}
+		for _, e := range pa.Events {
+			if e.Kind != "store" || len(e.Args) != 2 || !strings.HasSuffix(typeName(e.Args[1].Typ), "PIN") {
+				continue
+			}
+			n++
+			v := e.Args[1]
+			for v.Op == "conv" && len(v.Args) == 1 {
+				v = v.Args[0]
+			}
+			if k, ok := v.Int64(); ok {
+				if k < 0 || k > bound {
+					bad = fmt.Sprintf("the constant %d is stored as a PIN", k)
+				}
+				continue
+			}
+			if reg, ok := pa.State.Ints[v.String()]; ok && len(reg) > 0 && reg[0].Lo >= 0 && reg[len(reg)-1].Hi <= bound {
+				continue
+			}
+			okText := false
+			var call *Term
+			visitTerm(v, map[*Term]bool{}, func(x *Term) {
+				if x.Op == "call" && (x.Name == "strconv.ParseUint" || x.Name == "strconv.Atoi" || x.Name == "strconv.ParseInt") && len(x.Args) >= 1 {
+					call = x
+				}
+			})
+			if call != nil && (v.Op == "extract" || v.Op == "call") {
+				txt := call.Args[0].String()
+				unsigned := call.Name == "strconv.ParseUint"
+				base10 := call.Name == "strconv.Atoi"
+				if len(call.Args) >= 2 {
+					if b, ok := call.Args[1].Int64(); ok && b == 10 {
+						base10 = true
+					}
+				}
+				// the text is bounded to the width by a length test ...
+				if reg, ok := pa.State.Ints["len("+txt+")"]; ok && len(reg) > 0 && reg[len(reg)-1].Hi <= width && unsigned && base10 {
+					okText = true
+				}
+				// ... or by a pattern it matched on this path: nothing wider than the bound's digits, no sign
+				for k, truth := range pa.State.Bools {
+					if !truth || !strings.Contains(k, "MatchString(") || !strings.Contains(k, txt) {
+						continue
+					}
+					i, j := strings.Index(k, "MustCompile(\""), strings.LastIndex(k, "\")")
+					if i < 0 || j < i {
+						continue
+					}
+					pat, err := strconv.Unquote(k[i+len("MustCompile(") : j+1])
+					if err != nil {
+						continue
+					}
+					rr, err := regexp.Compile(pat)
+					if err != nil {
+						continue
+					}
+					nines := strings.Repeat("9", int(width))
+					if base10 && rr.MatchString(nines) && !rr.MatchString(nines+"9") && !rr.MatchString("1"+strings.Repeat("0", int(width))) && !rr.MatchString("-1") && !rr.MatchString("+1") && !rr.MatchString(" 1") && !rr.MatchString("1_0") {
+						okText = true
+					}
+				}
+			}
+			if !okText {
+				bad = fmt.Sprintf("the reader stores %s under [%s], which is not known to lie in 0..%d", cut(e.Args[1].String(), 70), cut(pa.State.Describe(), 160), bound)
+			}
+		}
+	}
+	r.Check(bad == "" && n > 0, "J10", "types.PIN.UnmarshalJSON", p.Pos(uj.Pos()), fmt.Sprintf("%d stores on successful paths within 0..%d", n, bound), bad)
 }
 
 func lookupNamed(p *Program, rel, name string) *types.Named {
@@ -955,7 +1078,12 @@ func ruleControlState(r *Report, p *Program) {
 	}
 	bad := ""
 	n := 0
-	for _, pa := range walkSimple(p, uj, []string{"v", "in"}, nil) {
+	// a parser of the text the reader delegates to (ParseControlState(s), unexported or a small public helper) is
+	// part of the reader
+	inl := inlineHelpers([]*ssa.Package{p.SSAPkg("types")}, func(f *ssa.Function) bool {
+		return f.Object() != nil && f.Object().Exported() && !publicHelper(f, uj)
+	})
+	for _, pa := range walkSimple(p, uj, []string{"v", "in"}, inl) {
 		if pa.Outcome != "return" || errNilness(pa, pa.Results[0]) != 1 {
 			continue
 		}
@@ -1185,6 +1313,45 @@ func ruleWeekdays(r *Report, p *Program) {
 		})
 	}
 	r.Check(bad == "" && n == 7, "J4", "types.Weekdays", p.Pos(uj.Pos()), fmt.Sprintf("%d weekday names", n), bad+fmt.Sprintf(" (%d of 7 names handled)", n))
+	// the empty set is written as "" (no names): a reader that rejects a token may do so only after it has found the
+	// token (or the text) not to be empty - otherwise the writer's own image of the empty set does not read back
+	w := NewWalker(p)
+	w.LoopFuel = 1 // the first token: what holds for it holds for the only token of ""
+	w.Inline = typesHelpers(p)
+	args := make([]*Term, len(uj.Params))
+	for i, prm := range uj.Params {
+		args[i] = &Term{Op: "param", Name: []string{"w", "bytes"}[i%2], Typ: prm.Type()}
+	}
+	badE := ""
+	nE := 0
+	for _, pa := range w.Walk(uj, args, nil) {
+		if os.Getenv("UHLINT_DEBUG") == "J4e" {
+			fmt.Fprintf(os.Stderr, "J4e %s %v [%s]\n", pa.Outcome, pa.Results, pa.State.Describe())
+		}
+		if pa.Outcome != "return" || len(pa.Results) != 1 || errNilness(pa, pa.Results[0]) != 0 {
+			continue
+		}
+		res := pa.Results[0].String()
+		if strings.Contains(res, "json.Unmarshal") {
+			continue // the JSON value is not a string: the decoder's own error
+		}
+		nE++
+		nonEmpty := false
+		for _, f := range pa.State.Strs {
+			if f.ne[""] || (f.eq != nil && *f.eq != "") {
+				nonEmpty = true
+			}
+		}
+		for k, reg := range pa.State.Ints {
+			if t := pa.State.IntT[k]; t != nil && strings.HasPrefix(k, "len(") && len(t.Args) == 1 && t.Args[0].Typ != nil && isStringType(t.Args[0].Typ) && len(reg) > 0 && reg[0].Lo >= 1 {
+				nonEmpty = true
+			}
+		}
+		if !nonEmpty {
+			badE = "the reader rejects a text under [" + cut(pa.State.Describe(), 200) + "] without having found it (or the token) non-empty: the empty set, written as \"\", does not read back"
+		}
+	}
+	r.Check(badE == "", "J4", "types.Weekdays:empty", p.Pos(uj.Pos()), fmt.Sprintf("%d rejecting paths, each after a non-empty token", nE), badE)
 }
 
 // J5 / P5: stores into a map reached through a pointer receiver.
